@@ -84,6 +84,7 @@ inductive SysOp where
   | aSendOther (now : Time) (data : Bytes) (s : Nat)  -- `a` sends on ANOTHER substream
   | aRecv (now : Time) (p : Packet)    -- `a` receives an ordinary reliable packet (the other direction's data, any substream) through `handle`
   | bSend (now : Time) (data : Bytes) (s : Nat)       -- `b` sends data of its own (the other direction; any substream)
+  | bRecvOther (now : Time) (p : Packet)  -- `b` receives an ordinary reliable packet of ANOTHER substream through `handle`
   | bPing (now : Time)                 -- `b`'s keep-alive timer fires
   | bAckIn (now : Time) (p : Packet)   -- `b` is handed an acknowledgement (not of SYN / CONNECT / DISCONNECT) of its own traffic
   | fireResend (now : Time) (p : Packet) (k : Nat)  -- a retransmission timer of `a` that holds `p` (counter `k`) fires
@@ -151,6 +152,7 @@ def Sys.step (env : Env) (sub : Nat) (s : Sys) : SysOp → Sys
   | .aRecv now p => { s with a := (s.a.handle env now p).c }
   | .bSend now data s' => { s with b := (s.b.send env now data s').c }
   | .bPing now => { s with b := (s.b.sendPing env now).c }
+  | .bRecvOther now p => { s with b := (s.b.handle env now p).c }
   | .bAckIn now p => { s with b := (s.b.handle env now p).c }
 
 def Sys.run (env : Env) (sub : Nat) (s : Sys) (ops : List SysOp) : Sys := ops.foldl (Sys.step env sub) s
@@ -180,6 +182,13 @@ def Sys.opOk (env : Env) (sub : Nat) (s : Sys) : SysOp → Bool
   | .aRecv _ p => ordinaryB p
   | .bSend _ _ _ => true
   | .bPing _ => true
+  | .bRecvOther now p =>
+    -- another substream; its window holds packets of that substream; the packet does not end the connection (a DISCONNECT would)
+    ordinaryB p && decide (p.substreamId ≠ sub) &&
+      (match s.b.windows[p.substreamId]? with
+       | some w => w.packets.all (fun kq => decide (kq.2.substreamId = p.substreamId))
+       | none => true) &&
+      decide ((s.b.handle env now p).c.eof = s.b.eof)
   | .bAckIn _ p => (hasAck p.flags || hasMultiAck p.flags) && decide (p.type ≠ TYPE_SYN) && decide (p.type ≠ TYPE_CONNECT) &&
       decide (p.type ≠ TYPE_DISCONNECT)
 
@@ -635,6 +644,7 @@ def Sys.absOp (env : Env) (sub : Nat) (s : Sys) : SysOp → Option Op
   | .aRecv _ _ => none
   | .bSend _ _ _ => none
   | .bPing _ => none
+  | .bRecvOther _ _ => none
   | .bAckIn _ _ => none
 
 def stepOpt (ci : Cipher) (size : Nat) (ch : Chan) : Option Op → Chan
@@ -1026,6 +1036,28 @@ theorem cpl_step (env : Env) (hcomp : ∀ b, env.compress b = b) (hdec : ∀ b, 
     obtain ⟨w, hw, hgw, hwm⟩ := h.bwin
     exact ⟨⟨h.size, h.srel, h.acipher, h.log, h.netgood, h.netord, h5 h.blink, h6 h.beof, h.sent, h.opn, h.cln, h.pend, h1,
       ⟨w, by rw [h4]; exact hw, hgw, hwm⟩, h2, h3.trans h.bcipher, h.nrel⟩, fun o ho => by cases ho⟩
+  | bRecvOther now p =>
+    simp only [Sys.absOp, stepOpt, Sys.step]
+    simp only [Sys.opOk, Bool.and_eq_true, decide_eq_true_eq] at hok
+    obtain ⟨⟨⟨hord, hne⟩, hwin⟩, heof⟩ := hok
+    have hpath := handle_reliable_path env now s.b p (ordinary_of_B p hord) h.blink
+    cases hacc : s.b.accepts env now p with
+    | false =>
+      rw [hpath, hacc]
+      exact ⟨h, fun o ho => by cases ho⟩
+    | true =>
+      rw [hpath, hacc] at heof ⊢
+      simp only [if_true] at heof ⊢
+      have hgw : ∀ w, s.b.windows[p.substreamId]? = some w → ∀ kq ∈ w.packets, kq.2.substreamId = p.substreamId := by
+        intro w hw kq hkq
+        rw [hw] at hwin
+        simp only [List.all_eq_true, decide_eq_true_eq] at hwin
+        exact hwin kq hkq
+      have hf := processReliable_other_recvFr env s.b p sub hne hgw h.beof heof
+      obtain ⟨h1, h2, h3, h4, h5, h6⟩ := rrel_of_recvFr hf h.bwf h.rrel
+      obtain ⟨w, hw, hgw', hwm⟩ := h.bwin
+      exact ⟨⟨h.size, h.srel, h.acipher, h.log, h.netgood, h.netord, h5 h.blink, h6 h.beof, h.sent, h.opn, h.cln, h.pend, h1,
+        ⟨w, by rw [h4]; exact hw, hgw', hwm⟩, h2, h3.trans h.bcipher, h.nrel⟩, fun o ho => by cases ho⟩
   | bAckIn now p =>
     simp only [Sys.absOp, stepOpt, Sys.step]
     simp only [Sys.opOk, Bool.and_eq_true, decide_eq_true_eq] at hok
@@ -1100,6 +1132,7 @@ theorem timers_step (env : Env) (sub : Nat) (s : Sys) (op : SysOp) (h : TimersOk
     exact h q (handle_ordinary_resSub env now s.a p (ordinary_of_B p hok) q hq) hr
   | bSend now data s' => exact h
   | bPing now => exact h
+  | bRecvOther now p => exact h
   | bAckIn now p => exact h
 
 /-- **a retransmission is a re-delivery**: when a retransmission timer of the sender that holds a packet of the channel fires,
